@@ -4,7 +4,10 @@
    on the mesh k = kn/4 (phases are powers of i), at k and at k + G for reciprocal lattice vectors G (kn + 4 G).
    Part B: which blocks the random gauge of Data_K (random_gauge=True) may mix - Data_K.degen - and why tabulated /
    integrated quantities cannot notice: every such block lies inside one block over which the calculators trace
-   (Bands.Borders with the calculator's degen_thresh), provided degen_thresh_random_gauge <= degen_thresh. *)
+   (Bands.Borders with the calculator's degen_thresh), provided degen_thresh_random_gauge <= degen_thresh.
+   Units of part B: energies are integers; the integer th stands for the threshold th + 1/2 (the harness passes
+   (th + 1/2) x unit to the real code), so that `gap > th` here is the same as `gap > th + 1/2` and as `gap >= th + 1/2`:
+   no gap equals a threshold and the model does not depend on the strictness of the comparison in the implementation. *)
 EXTENDS Bands
 
 CAdd(x, y) == <<x[1] + y[1], x[2] + y[2]>>
